@@ -1,6 +1,6 @@
 """C08 — Objects, prototypes, functions and this (structural clauses)."""
 
-from ..rules import emitrules, objmodel, optargs, textparse, operators
+from ..rules import compiler_rules, emitrules, objmodel, optargs, textparse, operators
 
 
 def run(ctx, rep):
@@ -21,3 +21,4 @@ def run(ctx, rep):
     optargs.rule_missing_is_undefined(ctx, rep, "C08-R12", lambda f: any(p in f.qual for p in ("_create_object_constructor", "_make_object_method", "_make_function_method", "_create_function_constructor")), "Object, Object.prototype and Function.prototype", floor=3)
     objmodel.rule_data_accessor_exclusive(ctx, rep, "C08-R13")
     objmodel.rule_nearest_definition_decides(ctx, rep, "C08-R14")
+    compiler_rules.rule_resolver_side_effects(ctx, rep, "C08-R16")
